@@ -17,6 +17,7 @@ func register(id string, f func(*Check)) { checks[id] = f }
 func init() {
 	register("C18", checkC18)
 	register("C16", checkC16)
+	register("C09", checkC09)
 }
 
 func main() {
